@@ -298,7 +298,11 @@ func Main(cfg Config, run RunFunc) {
 		}
 	}
 	n := 0
-	for idx := cfg.Worker; n < cfg.MaxRuns; idx += cfg.Workers {
+	first := cfg.Worker
+	if after := envInt("VSIM_START_AFTER", -1); after >= 0 {
+		first = after + cfg.Workers // restarted behind a run that killed the previous process
+	}
+	for idx := first; n < cfg.MaxRuns; idx += cfg.Workers {
 		if indices != nil {
 			if n >= len(indices) {
 				break
